@@ -335,11 +335,28 @@ def planted(tier_name):
              "detail": "planted defect " + ("found: id %r" % s.model()[ident].as_string() if r == "sat" else "NOT found")}]
 
 
+def eligibility_mode(n_sarif: int, t0: int, has_sonar: bool, has_dd: bool, hotspots: bool) -> bool:
+    """codemodder.run (collaborators stubbed, see C20): the eligible set handed to match_codemods is the tool-specific
+    one exactly when Sonar issue files or SARIF files (of any tool) are supplied; Sonar hotspot files or DefectDojo
+    files alone leave find-and-fix mode on.
+    pre: 0 <= n_sarif <= 1
+    post: _
+    """
+    from harness import c20
+    from vlib.core import fin
+
+    return fin(c20._eligibility(n_sarif, t0, has_sonar, has_dd, hotspots))
+
+
+def warmup():
+    eligibility_mode(1, 2, False, True, True)
+
+
 SPEC = {
     "property": "C17",
     "level": "model_checking",
-    "files": ["src/codemodder/registry.py"],
-    "functions": ["codemodder.registry.CodemodRegistry.match_codemods / add_codemod_collection", "DEFAULT_EXCLUDED_CODEMODS", "the regular expressions match_codemods compiles (captured at run time)"],
+    "files": ["src/codemodder/registry.py", "src/codemodder/codemodder.py"],
+    "functions": ["codemodder.codemodder.run (how the eligibility mode is derived from the command line)", "codemodder.registry.CodemodRegistry.match_codemods / add_codemod_collection", "DEFAULT_EXCLUDED_CODEMODS", "the regular expressions match_codemods compiles (captured at run time)"],
     "bounds": {
         "quick": "registry of n = 2 codemods (ids symbolic z3 strings, |id| <= 64, printable non-space ASCII without ',' and '*'), origins in {pixee, sonar}; include / exclude lists of length <= 2 over {id of codemod i, an unknown id, 3 wildcard templates}; both eligibility modes; all 2^k decision vectors per configuration; primitive lemmas for 7 wildcard templates in both modes",
         "thorough": "n = 3 codemods, lists of length <= 3 over all 7 wildcard templates (<= 3 wildcards per list)",
@@ -354,5 +371,5 @@ SPEC = {
     "outside": ["load_registered_codemods / entry points (C11)", "CLI de-duplication of comma lists (C20's cli vocabulary)", "registries with more than 3 codemods"],
     "rule": "evaluations = decision vectors executed through the real match_codemods; distinct_nontrivial = distinct (mode, list, eligibility, origins) configurations; solver queries = regex-equivalence lemmas + feasibility of differing vectors",
     "drivers": [primitive_lemmas, structure, planted],
-    "xh": [],
+    "xh": [__import__("vlib.main", fromlist=["Xh"]).Xh("eligibility_mode", 200, 400)],
 }
